@@ -125,6 +125,21 @@ mksets (void)
   /* yescrypt / gost-yescrypt */
   static const char *const yp[] = { "j/.", "j75", "j85", "j73", "j75..", "j75./", "j75/.", "j75//", "j750./", ".4/", ".75", ".6/", "/4/", "/75", "j95", "j0.", "j1/" };
   static const int ysl[] = { 0, 1, 4, 8, 16, 22, 43, 86 };
+  /* lane count p and time t fields: have=1 -> p; have=2 -> t; have=3 -> p,t (p coded from 2, t from 1) for N = 2^7..2^10, r=1..8 */
+  for (int w = 0; w < 2; w++)
+    for (int nl = 7; nl <= 10; nl++)
+      for (int pp = 2; pp <= 10; pp++)
+        for (int t = 0; t <= 2; t++)
+          {
+            if (pp == 7 || pp == 9)
+              continue;
+            char prm[16];
+            if (t == 0)
+              snprintf (prm, sizeof prm, "j%c3.%c", A64[nl - 1], A64[pp - 2]);
+            else
+              snprintf (prm, sizeof prm, "j%c30%c%c", A64[nl - 1], A64[pp - 2], A64[t - 1]);
+            addset (w ? M_GOST : M_YESCRYPT, 0, "%s%s$saltSALT", w ? "$gy$" : "$y$", prm);
+          }
   for (int w = 0; w < 2; w++)
     for (unsigned p = 0; p < sizeof yp / sizeof *yp; p++)
       for (unsigned k = 0; k < 8; k++)
